@@ -56,7 +56,7 @@ def shards(tier):
 def floors(tier):
     f = {"positive": 20000, "negative": 10000, "through_validator": 1000, "hostile_first": 300,
          "hostile_middle": 300, "hostile_last": 300, "distinct_nontrivial": 10000, "short_lived_resolutions": 5000, "whole_documents_through_resolver": 100, "document_named_like_a_metaschema": 150, "document_named_like_a_store_entry": 80,
-         "reused_validator_pointer_sequences": 500, "member_as_referrer_lookups": 10000}
+         "reused_validator_pointer_sequences": 500, "member_as_referrer_lookups": 10000, "pointers_after_validate_raised_and_exception_kept": 1500}
     f["neg:index_beyond_int_conversion_limit"] = 40
     for k in ("missing_key", "index_eq_len", "index_gt_len", "non_index_token", "token_on_scalar", "token_on_string",
               "disguised_in_range_index"):
@@ -355,6 +355,40 @@ def reused_validator_pointers(ctx, rng, doc):
             if got != want:
                 ctx.violation("validator-wrong-target", dict(case, step=k, instance=inst), "step %d gave %r, expected %r" % (k, got, want))
                 break
+        # validate() raised for something found under ANOTHER base URI (a nested id, a stored document) and the caller still
+        # holds the exception: pointers into the root document keep addressing the root document
+        from jsonschema import RefResolver
+        from jsonschema.exceptions import ValidationError
+        other = "http://other.example/c14/sub/doc.json"
+        schema2 = {"x": d2, "properties": {"good": {"$ref": "#" + good},
+                                           "inner": {impl.IDKW[d]: "http://other.example/c14/nested/", "properties": {"q": {"type": "integer"}}},
+                                           "far": {"$ref": other + "#/definitions/t"}}}
+        store = {other: {"definitions": {"t": {"properties": {"q": {"type": "integer"}}}}, "x": {"decoy": True}}}
+        v2 = impl.CLS[d](schema2, resolver=RefResolver.from_schema(schema2, id_of=impl.CLS[d].ID_OF, store=store))
+        kept = []
+        case2 = {"draft": d, "schema": schema2, "reused": True, "marker": marker, "exceptions_kept": True}
+        for k, inst in enumerate([{"inner": {"q": "s"}}, {"far": {"q": "s"}}, {"far": {"q": "s"}, "inner": {"q": None}}]):
+            try:
+                v2.validate(inst)
+            except ValidationError as e:
+                kept.append(e)
+            except Exception as e:
+                ctx.violation("validator-raised", dict(case2, step=k), "%s: %s" % (type(e).__name__, str(e)[:100]))
+                break
+            ctx.count("pointers_after_validate_raised_and_exception_kept")
+            try:
+                whole = v2.resolver.resolve("#")[1]
+                target = v2.resolver.resolve("#" + good)[1]
+                verdicts = (v2.is_valid({"good": marker}), v2.is_valid({"good": marker + "x"}))
+            except Exception as e:
+                ctx.violation("positive-raised-after-a-clean-failure", dict(case2, step=k), "after validate() raised (exception still held): %s: %s" % (type(e).__name__, str(e)[:100]))
+                break
+            if whole is not schema2 or target != {"enum": [marker]} or verdicts != (True, False):
+                ctx.violation("validator-wrong-target", dict(case2, step=k),
+                              "after validate() raised (exception still held): '#' is the root document: %s; the marker pointer gives %r; verdicts %r" % (
+                                  whole is schema2, target if not isinstance(target, dict) else sorted(target)[:3], verdicts))
+                break
+        del kept
 
 
 def negative(ctx, rng, doc):
